@@ -6,6 +6,7 @@ import (
 	"go/ast"
 	"go/token"
 	"go/types"
+	"hash/fnv"
 	"sort"
 	"strings"
 
@@ -28,7 +29,8 @@ var knownRefsTxt string
 
 type refDecl struct {
 	kind, pkg, name, typ string
-	idx                  int // field index for S
+	idx                  int    // field index for S
+	shape                string // hash of the body / initialiser with every identifier erased (F, V, C); tie-breaker only
 }
 
 func parseRefs() []refDecl {
@@ -44,6 +46,9 @@ func parseRefs() []refDecl {
 		d := refDecl{kind: f[0], pkg: f[1], name: f[2], typ: f[3], idx: -1}
 		if len(f) > 4 {
 			fmt.Sscan(f[4], &d.idx)
+		}
+		if len(f) > 5 {
+			d.shape = f[5]
 		}
 		out = append(out, d)
 	}
@@ -64,7 +69,9 @@ func sigStr(sig *types.Signature) string {
 func currentDecls(modPkgs []*packages.Package) ([]refDecl, map[string]types.Object) {
 	var out []refDecl
 	objs := map[string]types.Object{}
+	shapes := declShapes(modPkgs)
 	add := func(d refDecl, o types.Object) {
+		d.shape = shapes[o]
 		out = append(out, d)
 		objs[d.kind+"\t"+d.pkg+"\t"+d.name] = o
 	}
@@ -177,6 +184,7 @@ func undoRenames(modPkgs []*packages.Package, fset *token.FileSet, readSrc func(
 		}
 		cand := -1
 		n := 0
+		var cands []int
 		for i, a := range added {
 			if usedAdded[i] || a.kind != m.kind || a.pkg != m.pkg || a.typ != m.typ || container(a.name) != container(m.name) {
 				continue
@@ -185,7 +193,19 @@ func undoRenames(modPkgs []*packages.Package, fset *token.FileSet, readSrc func(
 				continue
 			}
 			cand = i
+			cands = append(cands, i)
 			n++
+		}
+		if n > 1 && m.shape != "" {
+			// several new declarations of the same type in the same place (two tables of one type renamed together): the one
+			// whose body / initialiser has the same shape once every identifier is erased
+			n = 0
+			for _, i := range cands {
+				if added[i].shape == m.shape {
+					cand = i
+					n++
+				}
+			}
 		}
 		if n != 1 {
 			continue
@@ -251,4 +271,89 @@ func undoRenames(modPkgs []*packages.Package, fset *token.FileSet, readSrc func(
 		}
 	}
 	return overlay, notes
+}
+
+// declShapes hashes the body of every function and the initialiser of every package-level variable and constant of the module
+// with all identifiers erased: node kinds, operators and literals only. A rename leaves the shape unchanged.
+func declShapes(modPkgs []*packages.Package) map[types.Object]string {
+	out := map[types.Object]string{}
+	modPaths := map[string]bool{}
+	for _, p := range modPkgs {
+		modPaths[p.PkgPath] = true
+	}
+	var info *types.Info
+	shapeOf := func(n ast.Node) string {
+		if n == nil {
+			return ""
+		}
+		h := fnv.New64a()
+		ast.Inspect(n, func(x ast.Node) bool {
+			switch v := x.(type) {
+			case nil:
+				h.Write([]byte(")"))
+				return true
+			case *ast.Ident:
+				// names a module edit cannot change are part of the shape: predeclared identifiers and what other modules declare
+				h.Write([]byte("I"))
+				if o := info.Uses[v]; o != nil {
+					switch {
+					case o.Pkg() == nil:
+						h.Write([]byte(":" + o.Name()))
+					case !modPaths[o.Pkg().Path()]:
+						h.Write([]byte(":" + o.Pkg().Path() + "." + o.Name()))
+					}
+					if pn, ok := o.(*types.PkgName); ok && !modPaths[pn.Imported().Path()] {
+						h.Write([]byte(":pkg " + pn.Imported().Path()))
+					}
+				}
+			case *ast.BasicLit:
+				h.Write([]byte("L" + v.Value))
+			case *ast.BinaryExpr:
+				h.Write([]byte("B" + v.Op.String()))
+			case *ast.UnaryExpr:
+				h.Write([]byte("U" + v.Op.String()))
+			case *ast.AssignStmt:
+				h.Write([]byte("A" + v.Tok.String()))
+			case *ast.IncDecStmt:
+				h.Write([]byte("D" + v.Tok.String()))
+			case *ast.BranchStmt:
+				h.Write([]byte("J" + v.Tok.String()))
+			case *ast.CommentGroup, *ast.Comment:
+				return false
+			default:
+				h.Write([]byte(fmt.Sprintf("%T(", x)))
+			}
+			return true
+		})
+		return fmt.Sprintf("%016x", h.Sum64())
+	}
+	for _, p := range modPkgs {
+		if p.TypesInfo == nil {
+			continue
+		}
+		info = p.TypesInfo
+		for _, f := range p.Syntax {
+			for _, d := range f.Decls {
+				switch d := d.(type) {
+				case *ast.FuncDecl:
+					if o := p.TypesInfo.Defs[d.Name]; o != nil && d.Body != nil {
+						out[o] = shapeOf(d.Body)
+					}
+				case *ast.GenDecl:
+					for _, sp := range d.Specs {
+						vs, ok := sp.(*ast.ValueSpec)
+						if !ok || len(vs.Values) != len(vs.Names) {
+							continue
+						}
+						for i, nm := range vs.Names {
+							if o := p.TypesInfo.Defs[nm]; o != nil {
+								out[o] = shapeOf(vs.Values[i])
+							}
+						}
+					}
+				}
+			}
+		}
+	}
+	return out
 }
